@@ -330,9 +330,17 @@ fn try_broadcast_user_function(
     return Ok(None);
   };
 
-  // Only broadcast when input and output kinds are the same scalar kind.
+  // Broadcast when input and output kinds are the same, or when the input kind is a plain
+  // scalar kind (whatever the output kind is: `is-zero(x<u64>) => <bool>` maps over a matrix too).
   // If the input is already a matrix kind, don't recurse.
-  if input_kind != output_kind || matches!(input_kind, ValueKind::Matrix(_, _)) {
+  let scalar_input = matches!(
+    input_kind,
+    ValueKind::U8 | ValueKind::U16 | ValueKind::U32 | ValueKind::U64 | ValueKind::U128
+      | ValueKind::I8 | ValueKind::I16 | ValueKind::I32 | ValueKind::I64 | ValueKind::I128
+      | ValueKind::F32 | ValueKind::F64 | ValueKind::C64 | ValueKind::R64
+      | ValueKind::String | ValueKind::Bool
+  );
+  if matches!(input_kind, ValueKind::Matrix(_, _)) || !(input_kind == output_kind || scalar_input) {
     return Ok(None);
   }
 
